@@ -579,6 +579,7 @@ impl Ps {
             if self.is_id("type") {
                 self.next();
                 let name = self.ident()?;
+                check_declared_name(&name, true)?;
                 let mut params = vec![];
                 if self.is_p("<") {
                     self.next();
@@ -611,6 +612,7 @@ impl Ps {
             if self.is_id("const") {
                 self.next();
                 let name = self.ident()?;
+                check_declared_name(&name, false)?;
                 let ty = if self.is_p(":") {
                     self.next();
                     Some(self.ty()?)
@@ -644,6 +646,24 @@ impl Ps {
         }
         Ok(out)
     }
+}
+
+/// ECMAScript reserved words (never identifiers) and, for type aliases, TypeScript's predefined type names
+/// ("Type alias name cannot be 'string'")
+pub const RESERVED_WORDS: [&str; 36] = [
+    "break", "case", "catch", "class", "const", "continue", "debugger", "default", "delete", "do", "else", "enum", "export", "extends", "false", "finally", "for", "function", "if", "import", "in",
+    "instanceof", "new", "null", "return", "super", "switch", "this", "throw", "true", "try", "typeof", "var", "void", "while", "with",
+];
+pub const PREDEFINED_TYPE_NAMES: [&str; 11] = ["any", "unknown", "never", "object", "string", "number", "boolean", "bigint", "symbol", "undefined", "void"];
+
+fn check_declared_name(name: &str, is_type: bool) -> R<()> {
+    if RESERVED_WORDS.contains(&name) {
+        return Err(format!("`{name}` is a reserved word and cannot be declared as a {}", if is_type { "type alias" } else { "constant" }));
+    }
+    if is_type && PREDEFINED_TYPE_NAMES.contains(&name) {
+        return Err(format!("type alias name cannot be `{name}` (a predefined type name)"));
+    }
+    Ok(())
 }
 
 pub fn parse_module(src: &str) -> R<Vec<Decl>> {
@@ -700,6 +720,8 @@ pub struct Scope {
     pub ns_imports: BTreeMap<String, usize>,
     pub consts: BTreeMap<String, Decl>,
     pub value_exports: BTreeMap<String, String>,
+    /// names bound by import declarations of this module
+    pub imported_names: std::collections::BTreeSet<String>,
 }
 
 #[derive(Default, Clone)]
@@ -731,6 +753,9 @@ impl World {
                     if self.scopes[id].types.contains_key(name) {
                         return Err(format!("duplicate type declaration {name} in {}", self.scopes[id].name));
                     }
+                    if self.scopes[id].imported_names.contains(name) {
+                        return Err(format!("type declaration {name} conflicts with an import of the same name in {}", self.scopes[id].name));
+                    }
                     self.scopes[id].types.insert(name.clone(), (params.clone(), body.clone()));
                     if *exported {
                         self.scopes[id].exports.insert(name.clone(), name.clone());
@@ -750,12 +775,23 @@ impl World {
                     }
                 }
                 Decl::ImportNs { alias, from } => {
+                    if self.scopes[id].types.contains_key(alias) {
+                        return Err(format!("import alias {alias} conflicts with a type declaration of the same name in {}", self.scopes[id].name));
+                    }
+                    self.scopes[id].imported_names.insert(alias.clone());
                     if let Some(m) = imports.get(from).and_then(|m| self.modules.get(m)) {
                         let m = *m;
                         self.scopes[id].ns_imports.insert(alias.clone(), m);
                     }
                 }
-                Decl::ImportNamed { .. } => {}
+                Decl::ImportNamed { names, .. } => {
+                    for n in names {
+                        if self.scopes[id].types.contains_key(n) {
+                            return Err(format!("imported name {n} conflicts with a type declaration of the same name in {}", self.scopes[id].name));
+                        }
+                        self.scopes[id].imported_names.insert(n.clone());
+                    }
+                }
                 Decl::Const { name, exported, .. } => {
                     self.scopes[id].consts.insert(name.clone(), d.clone());
                     if *exported {
@@ -809,6 +845,16 @@ impl World {
     }
     pub fn eval_in(&self, scope: usize, te: &Te) -> R<T> {
         self.eval(scope, te, &Rc::new(BTreeMap::new()), 0)
+    }
+    /// evaluate inside the body of a generic alias: its type parameters are in scope (and shadow declarations of the
+    /// same name), each standing for an opaque type of its own
+    pub fn eval_in_with_params(&self, scope: usize, te: &Te, params: &[String]) -> R<T> {
+        let env: BTreeMap<String, T> = params.iter().map(|p| (p.clone(), T::Opaque(format!("<type parameter {p}>")))).collect();
+        self.eval(scope, te, &Rc::new(env), 0)
+    }
+    /// is `name` declared (as a type alias) in this scope or an enclosing one?
+    pub fn declares_type(&self, scope: usize, name: &str) -> bool {
+        self.find_type(scope, name).is_some()
     }
 
     fn eval(&self, scope: usize, te: &Te, env: &Env, depth: usize) -> R<T> {
